@@ -134,3 +134,28 @@ func Load(cfg Config, dir string) (*Program, error) {
 func IsModulePkg(path string) bool {
 	return path == ModulePath || strings.HasPrefix(path, ModulePath+"/")
 }
+
+// LoadDir loads an arbitrary directory (used for the checker's own positive-control fixtures).
+func LoadDir(dir string) (*ssa.Program, []*ssa.Package, error) {
+	env := []string{}
+	for _, e := range os.Environ() {
+		if strings.HasPrefix(e, "GOWORK=") || strings.HasPrefix(e, "GOFLAGS=") || strings.HasPrefix(e, "GOPROXY=") || strings.HasPrefix(e, "GOSUMDB=") || strings.HasPrefix(e, "GOTOOLCHAIN=") {
+			continue
+		}
+		env = append(env, e)
+	}
+	env = append(env, "GOWORK=off", "GOFLAGS=-mod=mod", "GOPROXY=off", "GOSUMDB=off", "GOTOOLCHAIN=local")
+	pc := &packages.Config{Mode: packages.LoadAllSyntax, Dir: dir, Env: env}
+	roots, err := packages.Load(pc, "./...")
+	if err != nil {
+		return nil, nil, err
+	}
+	for _, r := range roots {
+		for _, e := range r.Errors {
+			return nil, nil, fmt.Errorf("fixture %s: %s", dir, e.Error())
+		}
+	}
+	prog, pkgs := ssautil.AllPackages(roots, ssa.InstantiateGenerics)
+	prog.Build()
+	return prog, pkgs, nil
+}
